@@ -137,3 +137,99 @@ Print Assumptions C13_vol_ro_run_untouched.
 Print Assumptions C13_vol_unmount_after_mount_is_identity.
 Print Assumptions C13_vol_read_only_session_no_write.
 Print Assumptions C13_vol_example_read_only_session.
+(* ================================================================ FAT32 at image level (Model/VolFsInfo.v, Proofs/VolFsInfoProofs.v):
+   mount ; non-mutating calls (statistics, reads, seeks) ; unmount, with the device writes of unmount listed
+   ([vol32_unmount_writes]: the serialised FS-info sector if the latch is dirty, then the status byte if the flags changed).
+   Two classes decide whether mount latches a free count ([w] the stored word, [total] the cluster count, [b] the status byte):
+     lacks_count w total = (w = 0xFFFFFFFF) || (total < w)       - the property's own exception: the sector lacks a usable count
+     d16_class b w total = odd b && not lacks_count              - the KNOWN FINDING D16 (dirty-mount-stats-writes-fsinfo):
+                                                                    the sector HAS a count, the dirty status byte makes mount drop it *)
+From FatVerif Require Import Model.Fat Model.VolFile Model.VolStatus Model.FormatImage Model.VolFsInfo Spec.Abs Proofs.FatProofs
+  Proofs.VolFileProofs Proofs.VolFsInfoProofs Proofs.VolFsInfoExamples.
+Import ListNotations.
+
+(* the latch holds no count after mount exactly in the two classes *)
+Theorem C13_vol32_latch_unknown_iff : forall g im, g_clusters g < UNKNOWN32 ->
+  (mount_free g im = None <->
+   (lacks_count (fsi_free_word g im) (g_clusters g) = true \/ d16_class (img_get im 65) (fsi_free_word g im) (g_clusters g) = true)).
+Proof. exact mount_free_classes. Qed.
+
+(* (a) READ-ONLY USE NEVER WRITES, outside the two classes: mount (any bytes < 256, FAT32 width) ; statistics, reads, seeks with
+   any arguments and outcomes ; unmount - no device write is issued and the image is the image that was mounted.  Also without
+   looking at the classes: whenever mount latched a count, image, FS-info latch and status latch are untouched. *)
+Theorem C13_vol32_read_only_no_write : forall strict im cs fi s h,
+  let g := parse_geom im in
+  bytes_ok im -> g_bits g = 32 -> vol32_mount strict im = Ok (fi, s) ->
+  lacks_count (fsi_free_word g im) (g_clusters g) = false ->
+  d16_class (img_get im 65) (fsi_free_word g im) (g_clusters g) = false ->
+  forallb read_only_call cs = true ->
+  let stL := fst (v32_run g {| v_im := im; v_fi := fi; v_h := h; v_s := s |} cs) in
+  vol32_unmount_writes g (v_fi stL) (v_s stL) = [] /\
+  fst (fst (vol32_unmount g (v_im stL) (v_fi stL) (v_s stL))) = im /\ v_im stL = im.
+Proof. exact vol32_read_only_no_write. Qed.
+
+Theorem C13_vol32_read_only_writes_nothing : forall strict im cs fi s h, vol32_mount strict im = Ok (fi, s) ->
+  fi_free fi <> None -> forallb read_only_call cs = true ->
+  let g := parse_geom im in
+  let stL := fst (v32_run g {| v_im := im; v_fi := fi; v_h := h; v_s := s |} cs) in
+  v_im stL = im /\ v_fi stL = fi /\ v_s stL = s /\
+  vol32_unmount_writes g (v_fi stL) (v_s stL) = [] /\
+  vol32_unmount g (v_im stL) (v_fi stL) (v_s stL) = (im, fi, s).
+Proof. exact vol32_read_only_writes_nothing. Qed.
+
+(* (b) BOTH CLASSES, characterised exactly: mount without a latched count ; stats ; unmount issues exactly ONE device write - the
+   512 serialised bytes at the FS-info sector with the decoder's count of free entries and the mount-time hint (unknown if the
+   stored hint was 0, 1 or above total+2).  Nothing outside the sector changes; of a well-formed sector nothing but the two words;
+   the image really differs whenever the stored word was not already the decoder's count. *)
+Theorem C13_vol32_stats_unknown_count_writes_fsinfo : forall strict im fi s h,
+  let g := parse_geom im in
+  bytes_ok im -> Vol32 g -> vol32_mount strict im = Ok (fi, s) -> fi_free fi = None ->
+  let st0 := {| v_im := im; v_fi := fi; v_h := h; v_s := s |} in
+  let stL := fst (v32_run g st0 [CStats]) in
+  let im' := fst (fst (vol32_unmount g (v_im stL) (v_fi stL) (v_s stL))) in
+  let sector := fsinfo_bytes (count_free g im) (word_of (mount_next g im)) in
+  snd (v32_run g st0 [CStats]) = [RStats (Ok (g_cluster_size g, g_clusters g, count_free g im))] /\
+  v_im stL = im /\
+  vol32_unmount_writes g (v_fi stL) (v_s stL) = [(fsi_off g, sector)] /\
+  im' = img_write im (fsi_off g) sector /\
+  fsi_free_word g im' = count_free g im /\ fsi_next_word g im' = word_of (mount_next g im) /\
+  (forall a, ~ in_fsi g a -> img_get im' a = img_get im a) /\
+  (sector_wf g im -> forall a, ~ in_fsi_words g a -> img_get im' a = img_get im a) /\
+  (fsi_free_word g im <> count_free g im -> im' <> im).
+Proof. exact vol32_stats_unknown_count_writes_fsinfo. Qed.
+
+(* "read-only use never writes" is FALSE of the faithful model inside the known class: a FAT32 volume mounted with status byte 1
+   whose sector carries a count (5); mount ; stats ; unmount rewrites the sector (count 65578).  D16, known_findings.json
+   dirty-mount-stats-writes-fsinfo; the statistics exception (no usable count) is the example below it. *)
+Theorem C13_vol32_read_only_never_writes_refuted :
+  exists strict im cs fi s h,
+    let g := parse_geom im in
+    vol32_mount strict im = Ok (fi, s) /\ forallb read_only_call cs = true /\
+    lacks_count (fsi_free_word g im) (g_clusters g) = false /\
+    d16_class (img_get im 65) (fsi_free_word g im) (g_clusters g) = true /\
+    let stL := fst (v32_run g {| v_im := im; v_fi := fi; v_h := h; v_s := s |} cs) in
+    vol32_unmount_writes g (v_fi stL) (v_s stL) <> [] /\
+    fsi_free_word g (fst (fst (vol32_unmount g (v_im stL) (v_fi stL) (v_s stL)))) <> fsi_free_word g im.
+Proof.
+  exists false, ex32_d16, [CStats], {| fi_free := None; fi_next := Some 3; fi_dirty := false |}, (st_mount 1), fresh_handle.
+  destruct ex32_d16_witness as (Eg & D & L & M & R & W & F & F0). cbv zeta in *. rewrite Eg.
+  refine (conj M (conj R (conj L (conj D (conj _ _))))).
+  - rewrite W. discriminate.
+  - rewrite F, F0. discriminate.
+Qed.
+
+Example C13_vol32_example_unknown_count :
+  lacks_count (fsi_free_word ex32_g ex32_unknown) 65579 = true /\
+  vol32_mount false ex32_unknown = Ok ({| fi_free := None; fi_next := Some 3; fi_dirty := false |}, st_mount 0) /\
+  let st := fst (v32_run ex32_g {| v_im := ex32_unknown; v_fi := {| fi_free := None; fi_next := Some 3; fi_dirty := false |};
+                                   v_h := fresh_handle; v_s := st_mount 0 |} [CStats]) in
+  vol32_unmount_writes ex32_g (v_fi st) (v_s st) = [(512, fsinfo_bytes 65578 3)] /\
+  on_ok (vol32_session false ex32_unknown [CStats]) (fun '(im', rs) =>
+    rs = [RStats (Ok (512, 65579, 65578))] /\ fsi_free_word ex32_g im' = 65578 /\ fsi_next_word ex32_g im' = 3).
+Proof. exact ex32_unknown_stats. Qed.
+
+Print Assumptions C13_vol32_latch_unknown_iff.
+Print Assumptions C13_vol32_read_only_no_write.
+Print Assumptions C13_vol32_read_only_writes_nothing.
+Print Assumptions C13_vol32_stats_unknown_count_writes_fsinfo.
+Print Assumptions C13_vol32_read_only_never_writes_refuted.
